@@ -4,9 +4,10 @@ of boltons/cacheutils.py): a cache that calls on_miss outside its lock is then p
 middle of the user's function, which is where a concurrent assignment gets lost."""
 
 
-def make(key_token, value_object):
+def make(key_token, value_object, calls):
     def on_miss(key):
         tok = key_token(key)
+        calls.append(tok)         # the harness reports how often on_miss was called during a run
         tok = tok + 50            # a few bytecodes on purpose: each is a pre-emption point
         value = value_object(tok)
         return value
